@@ -422,7 +422,7 @@ impl AST {
                         }
                     }
                     FormatArgs::Single(expr) => {
-                        let formatter = ExpressionTemplate::new();
+                        let formatter = ExpressionTemplate::new().with_pos(&def.pos);
                         // TODO(jwall): This really belongs in a preprocess step
                         // before here.
                         let mut parts = match formatter.parse(&def.template) {
